@@ -37,7 +37,7 @@ def check(repo, res, tier):
     # applied (one-hot at the fired event in exact mode; the drawn count per event in tau mode) and to be recorded
     from ..rules import stepx as X
     res.rule("R-WALK", "per-step counts recorded = counts applied to the state (exact mode: one-hot at the fired event), recorded with the state and time they produced")
-    n = X.check_walks(repo, res)
+    n = X.check_walks(repo, res, tier=tier)
     res.floor("walk scenarios interpreted", n, 15)
     _check_loopdep(repo, res, cls)
     _check_lookup(repo, res, cls)
